@@ -6,3 +6,4 @@ Definition k_flow_reader_read_set : pfun :=
     SSetAttr "self" "_view" (PSlice (PAttr (PName "self") "_view") (PName "consumed") PNone);
     SReturn (PCall "ASN1Reader" [(PName "new_view")])
   ] |}.
+Definition k_flow_reader_read_set_defaults : list (string * pexp) := [("tag", PNone); ("header", PNone); ("hint", PNone)].
